@@ -282,26 +282,49 @@ func GenerateScript(seed uint64, prop, tier string, env *Env) *Script {
 	if rng.Chance(g.p.PUpgrade) {
 		upgradeAt = rng.Range(2, nBlocks-1)
 	}
+	// half of the upgrades come the way they do on a live chain: a governance proposal carrying MsgSoftwareUpgrade,
+	// executed by x/gov when the voting period ends. Every simulated node runs the binary that has the upgrade handler,
+	// and x/upgrade refuses to run that binary while the plan is still in the future ("BINARY UPDATED BEFORE TRIGGER"),
+	// so the proposal is timed to pass in the EndBlock right before the plan height: submitted two 5 s blocks earlier.
+	viaGov := upgradeAt >= 2 && rng.Chance(0.5)
 	fams, ws := weightList(g.p.W)
 	for b := 0; b < nBlocks; b++ {
+		if viaGov && b == upgradeAt-2 {
+			h0 := s.Config.InitialHeight
+			if h0 < 1 {
+				h0 = 1
+			}
+			g.nProposals++
+			sub := &TxSpec{Gas: 2_000_000, Msgs: []MsgSpec{{T: "gov.SubmitUpgrade", F: map[string]string{"proposer": g.addr(rng.Intn(NumAccounts)), "name": "v2.2.1", "height": fmt.Sprint(h0 + int64(upgradeAt) + 1)},
+				Coins: []CoinSpec{{Denom: FeeDenom, Amount: "1"}}}}}
+			vote := &TxSpec{Gas: 2_000_000, Msgs: []MsgSpec{{T: "gov.Vote", F: map[string]string{"proposal": fmt.Sprint(g.nProposals), "voter": g.addr(0), "option": "yes"}}}}
+			g.emit(sub)
+			g.emit(vote)
+			sub.Hold, vote.Hold = 0, 0
+		}
 		n := rng.Range(g.p.TxPerBlock[0], g.p.TxPerBlock[1])
 		for i := 0; i < n; i++ {
 			g.family(fams[rng.Pick(ws)])
 		}
 		g.faults(b, nBlocks)
 		if b == upgradeAt {
-			g.steps = append(g.steps, Step{K: "upgrade"})
+			if !viaGov {
+				g.steps = append(g.steps, Step{K: "upgrade"})
+			}
 			g.upgraded = true
 			if rng.Chance(0.5) && g.nrep > 1 {
 				g.steps = append(g.steps, Step{K: "reconfig", Replica: rng.Range(1, g.nrep-1), Cfg: cfgPtr(g.randomCfg()), NoInfo: rng.Chance(0.5)})
 			}
 		}
 		dt := int64(5 * time.Second)
-		if rng.Chance(g.p.PJump) {
+		inVote := viaGov && b >= upgradeAt-2 && b <= upgradeAt
+		if inVote {
+			// no clock jumps while the proposal is being voted on: the 10 s voting period ends two blocks after submission
+		} else if rng.Chance(g.p.PJump) {
 			dt = []int64{1, int64(time.Second), int64(3 * time.Hour), int64(400 * 24 * time.Hour), int64(20 * 365 * 24 * time.Hour)}[rng.Intn(5)]
 		}
 		take := 0
-		if rng.Chance(0.1) {
+		if rng.Chance(0.1) && !inVote {
 			take = rng.Range(1, 3)
 		}
 		g.now = g.now.Add(time.Duration(dt))
@@ -1292,11 +1315,14 @@ func (g *Gen) famBank() {
 // whose gas limit exceeds block.max_gas are refused by every node - running, restarted or catching up - alike.
 func (g *Gen) famGov() {
 	r := g.rng
-	g.nProposals++
 	maxGas := []string{"-1", "100000000", "29999999", "40000000", "1000000000000"}[r.Pick([]int{2, 3, 3, 2, 1})]
 	maxBytes := []string{"22020096", "1000000", "200000"}[r.Intn(3)]
+	deposit := []string{"1", "1", "5", "0"}[r.Intn(4)]
+	if deposit != "0" {
+		g.nProposals++ // a proposal without a deposit is refused and gets no id
+	}
 	g.emit(&TxSpec{Gas: 2_000_000, Msgs: []MsgSpec{{T: "gov.SubmitParams", F: map[string]string{"proposer": g.addr(r.Intn(NumAccounts)), "max_gas": maxGas, "max_bytes": maxBytes, "metadata": ""},
-		Coins: []CoinSpec{{Denom: FeeDenom, Amount: []string{"1", "1", "5", "0"}[r.Intn(4)]}}}}})
+		Coins: []CoinSpec{{Denom: FeeDenom, Amount: deposit}}}}})
 	if r.Chance(0.85) {
 		opt := "yes"
 		if r.Chance(0.15) {
